@@ -39,36 +39,41 @@ theorem EntryCase.once {e e' : LookupEnc} {k oid} {vals : List String} {n : Nat}
       exact h.1.trans (hp.map _).symm
     · have := hp.length_eq
       have := h.2
-      show (e.lookup.bump (k, i)).data.length + n ≤ e.lookup.maxSize
+      show (e.lookup.bump (k, i)).data.length + n ≤ (e.lookup.bump (k, i)).maxSize
+      rw [Lookup.bump_maxSize]
       omega
   | fill hk hlt he ho =>
     subst he ho
     refine ⟨?_, ?_⟩
     · simp only [nameEntryRows, nameVals, List.filterMap_cons, List.filterMap_nil, List.map_append,
-        List.map_cons, List.map_nil]
+        List.map_cons, List.map_nil, Lookup.pin_data]
       exact h.1.append_right _
     · have := h.2
-      simp only [List.length_append, List.length_cons, List.length_nil]
+      simp only [Lookup.pin_data, Lookup.pin_maxSize, List.length_append, List.length_cons, List.length_nil]
       omega
-  | evict k0 i0 rest hk hd hfull he ho =>
+  | evict k0 i0 rest hk hd hfull hnp he ho =>
     exfalso
     have := h.2
     omega
 
 theorem useNameOnce {e : LookupEnc} {k : String} (wf : e.lookup.WF) (hpos : 0 < e.lookup.maxSize) :
+    e.entryIndex k = .error .conformance ∨
     ∃ e1 oid e2 id, e.entryIndex k = .ok (e1, oid) ∧ e1.nameTermIndex k = .ok (e2, id) ∧
       ∀ vals n, TOnce e vals (n + 1) → TOnce e2 (vals ++ nameVals (nameEntryRows oid k)) n := by
-  obtain ⟨e1, oid, heq, c⟩ := entryIndex_cases wf hpos k
-  obtain ⟨wf1, hmax, hlr, i, hi⟩ := c.basic wf hpos
-  refine ⟨e1, oid, _, _, heq, nameTermIndex_exact wf1 hi, ?_⟩
-  intro vals n h
-  have h1 := c.once h
-  have hp := Lookup.bump_perm hi
-  refine ⟨h1.1.trans (hp.map _).symm, ?_⟩
-  have := hp.length_eq
-  have := h1.2
-  show (e1.lookup.bump (k, i)).data.length + n ≤ e1.lookup.maxSize
-  omega
+  rcases entryIndex_cases wf hpos k with ⟨e1, oid, heq, c⟩ | hr
+  · right
+    obtain ⟨wf1, hmax, hlr, i, hi⟩ := c.basic wf hpos
+    refine ⟨e1, oid, _, _, heq, nameTermIndex_exact wf1 hi, ?_⟩
+    intro vals n h
+    have h1 := c.once h
+    have hp := Lookup.bump_perm hi
+    refine ⟨h1.1.trans (hp.map _).symm, ?_⟩
+    have := hp.length_eq
+    have := h1.2
+    show (e1.lookup.bump (k, i)).data.length + n ≤ (e1.lookup.bump (k, i)).maxSize
+    rw [Lookup.bump_maxSize]
+    omega
+  · exact Or.inl hr.err
 
 /-- The writer-side invariant on the whole term encoder. -/
 def NOnce (te : TermEnc) (acc : List Row) (n : Nat) : Prop := TOnce te.names (nameVals acc) n
@@ -80,15 +85,18 @@ theorem iriIndices_once {te te' : TermEnc} (inv : WInv te) (iri : String) {rows 
     (h : te.iriIndices iri = (te', .ok (rows, p, n))) {acc : List Row} {m : Nat}
     (ho : NOnce te acc (m + 1)) : NOnce te' (acc ++ rows) m := by
   by_cases hup : te.prefixes.lookup.maxSize = 0
-  · obtain ⟨ne1, noid, ne2, nid, hne, hnt, hon⟩ := useNameOnce (k := iri) inv.wfn inv.posn
+  · rcases useNameOnce (k := iri) inv.wfn inv.posn with herr | ⟨ne1, noid, ne2, nid, hne, hnt, hon⟩
+    · rw [iriIndices_err_noprefix hup herr] at h; simp at h
     rw [iriIndices_eq_noprefix hup hne hnt] at h
     simp only [Prod.mk.injEq, Except.ok.injEq] at h
     obtain ⟨rfl, rfl, _, _⟩ := h
     have := hon _ _ ho
     simpa only [NOnce, nameVals_append] using this
   · have hpos : 0 < te.prefixes.lookup.maxSize := Nat.pos_of_ne_zero hup
-    obtain ⟨pe1, poid, pe2, pid, hpe, hpt, _, _⟩ := usePrefixA (k := (splitIri iri).1) inv.wfp hpos
-    obtain ⟨ne1, noid, ne2, nid, hne, hnt, hon⟩ := useNameOnce (k := (splitIri iri).2) inv.wfn inv.posn
+    rcases usePrefixA (k := (splitIri iri).1) inv.wfp hpos with herr | ⟨pe1, poid, pe2, pid, hpe, hpt, _, _⟩
+    · rw [iriIndices_err_prefix1 hup herr] at h; simp at h
+    rcases useNameOnce (k := (splitIri iri).2) inv.wfn inv.posn with herr | ⟨ne1, noid, ne2, nid, hne, hnt, hon⟩
+    · rw [iriIndices_err_prefix2 hup hpe herr] at h; simp at h
     rw [iriIndices_eq_prefix hup hpe hne hpt hnt] at h
     simp only [Prod.mk.injEq, Except.ok.injEq] at h
     obtain ⟨rfl, rfl, _, _⟩ := h
@@ -109,8 +117,9 @@ theorem literal_names {te te' : TermEnc} {lang dt : Option String} {rows : List 
       · have hmb : (te.datatypes.lookup.maxSize == 0) = true := by simp [hm]
         simp [TermEnc.literal, hc, hmb] at h
       · have hmb : (te.datatypes.lookup.maxSize == 0) = false := by simpa using hm
-        obtain ⟨de1, doid, de2, did, hde, hdt, hdu, hdne⟩ :=
-          useDatatypeA (k := d) inv.wfd (Nat.pos_of_ne_zero hm)
+        rcases useDatatypeA (k := d) inv.wfd (Nat.pos_of_ne_zero hm) with herr |
+          ⟨de1, doid, de2, did, hde, hdt, hdu, hdne⟩
+        · simp [TermEnc.literal, hc, hmb, herr] at h
         simp only [TermEnc.literal, hc, if_true, hmb, Bool.false_eq_true, if_false, hde, hdt,
           Prod.mk.injEq, Except.ok.injEq] at h
         obtain ⟨rfl, hrows, _⟩ := h
@@ -182,7 +191,7 @@ theorem encodeTriple_once {exc : PyErr} {es es' : EncState} {s p ob : Term} {row
     (inv : WInv es.te) (h : encodeTriple exc es [s, p, ob] = (es', .ok rows)) {acc : List Row} {m : Nat}
     (ho : NOnce es.te acc (([s, p, ob].flatMap Term.iris).length + m)) :
     NOnce es'.te (acc ++ rows) m := by
-  rcases h1 : encSlot TermEnc.spo es.te es.rep.s s with ⟨te1, rs, (e | ⟨r1, ws⟩)⟩
+  rcases h1 : encSlot TermEnc.spo es.te.startRow es.rep.s s with ⟨te1, rs, (e | ⟨r1, ws⟩)⟩
   · simp [encodeTriple, h1] at h
   rcases h2 : encSlot TermEnc.spo te1 es.rep.p p with ⟨te2, rp, (e | ⟨r2, wp⟩)⟩
   · simp [encodeTriple, h1, h2] at h
@@ -192,7 +201,10 @@ theorem encodeTriple_once {exc : PyErr} {es es' : EncState} {s p ob : Term} {row
   obtain ⟨rfl, rfl⟩ := h
   have ho1 : NOnce es.te acc (s.iris.length + (p.iris.length + (ob.iris.length + m))) := by
     simpa [Nat.add_assoc] using ho
-  obtain ⟨o1, w1⟩ := encSlot_once inv h1 ho1
+  have ho1' : NOnce es.te.startRow acc (s.iris.length + (p.iris.length + (ob.iris.length + m))) := ho1
+  have inv' : WInv es.te.startRow :=
+    ⟨inv.wfn.congr rfl rfl rfl, inv.wfp.congr rfl rfl rfl, inv.wfd.congr rfl rfl rfl, inv.posn, inv.p0⟩
+  obtain ⟨o1, w1⟩ := encSlot_once inv' h1 ho1'
   obtain ⟨o2, w2⟩ := encSlot_once w1 h2 o1
   obtain ⟨o3, _⟩ := encSlot_once w2 h3 o2
   have : nameVals (acc ++ (r1 ++ r2 ++ r3 ++ [Row.triple ws wp wo])) = nameVals (acc ++ r1 ++ r2 ++ r3) := by
